@@ -40,7 +40,7 @@ class SpikeGenerator():
         """
         spike_times = {}
         for stimulus in stimuli:
-            for sym in set(stimulus["variables"]):
+            for sym in dict.fromkeys(stimulus["variables"]):   # unique target names in the order given (iterating a set would make the assignment of random trains to variables depend on hash randomisation)
                 assert type(sym) is str
                 sym = sym.replace("'", Config().differential_order_symbol)
                 if not sym in spike_times.keys():
